@@ -1,3 +1,359 @@
 package main
 
-func genAll() {}
+import (
+	"fmt"
+	"go/ast"
+	"os"
+	"path/filepath"
+	"strings"
+)
+
+const hdr = "From Coq Require Import List String ZArith NArith Bool.\nImport ListNotations.\nFrom DV Require Import Model.Tree Model.Tables.\nLocal Open Scope string_scope.\nLocal Open Scope list_scope.\n\n"
+
+func genAll() {
+	genUniverse()
+	genWalk()
+}
+
+// ---------------------------------------------------------------------------------
+// Universe: struct fields per node kind from dst.go; decoration points per kind from
+// decorations-types-generated.go.
+
+type field struct {
+	name string
+	ft   string // Coq ftype term
+}
+
+var dstStructs = map[string][]field{}
+var dstStructOrder []string
+var nodeIfaces = map[string]bool{"Node": true, "Expr": true, "Stmt": true, "Decl": true, "Spec": true}
+
+func classify(t ast.Expr, structs map[string]bool) string {
+	s := src(t)
+	switch {
+	case nodeIfaces[s]:
+		return "FNode " + q(s)
+	case strings.HasPrefix(s, "*") && structs[s[1:]]:
+		return "FNode " + q(s[1:])
+	case s == "*Object":
+		return "FObj"
+	case s == "*Scope":
+		return "FScope"
+	case s == "map[string]*File":
+		return "FMapFiles"
+	case s == "map[string]*Object":
+		return "FMapObj"
+	case strings.HasPrefix(s, "[]"):
+		e := s[2:]
+		if nodeIfaces[e] {
+			return "FList " + q(e)
+		}
+		if strings.HasPrefix(e, "*") && structs[e[1:]] {
+			return "FList " + q(e[1:])
+		}
+		return "FOther " + q(s)
+	case strings.HasSuffix(s, "Decorations"):
+		return "FDecs " + q(s)
+	case s == "bool" || s == "string" || s == "int" || s == "token.Token" || s == "token.Pos" || s == "ChanDir" || s == "ObjKind" || s == "SpaceType":
+		return "FVal " + q(s)
+	}
+	return "FOther " + q(s)
+}
+
+func collectStructs(f *ast.File) (map[string]*ast.StructType, []string) {
+	res := map[string]*ast.StructType{}
+	var order []string
+	for _, d := range f.Decls {
+		gd, ok := d.(*ast.GenDecl)
+		if !ok {
+			continue
+		}
+		for _, s := range gd.Specs {
+			ts, ok := s.(*ast.TypeSpec)
+			if !ok {
+				continue
+			}
+			if st, ok := ts.Type.(*ast.StructType); ok {
+				res[ts.Name.Name] = st
+				order = append(order, ts.Name.Name)
+			}
+		}
+	}
+	return res, order
+}
+
+func genUniverse() {
+	f := parse("dst.go")
+	structs, order := collectStructs(f)
+	isStruct := map[string]bool{}
+	for k := range structs {
+		isStruct[k] = true
+	}
+	var b strings.Builder
+	b.WriteString("(* GENERATED from /repo/dst.go and /repo/decorations-types-generated.go -- do not edit *)\n" + hdr)
+	b.WriteString("Definition universe : universe_t := [\n")
+	first := true
+	for _, name := range order {
+		st := structs[name]
+		// node kinds are the structs with a Decs field, plus Package
+		hasDecs := false
+		for _, fl := range st.Fields.List {
+			for _, n := range fl.Names {
+				if n.Name == "Decs" {
+					hasDecs = true
+				}
+			}
+		}
+		if !hasDecs && name != "Package" {
+			continue
+		}
+		var fs []field
+		for _, fl := range st.Fields.List {
+			for _, n := range fl.Names {
+				ft := classify(fl.Type, isStruct)
+				if name == "File" && n.Name == "Imports" {
+					ft = "FImportList"
+				}
+				if name == "File" && n.Name == "Unresolved" {
+					ft = "FIdentList"
+				}
+				fs = append(fs, field{n.Name, ft})
+			}
+		}
+		dstStructs[name] = fs
+		dstStructOrder = append(dstStructOrder, name)
+		if !first {
+			b.WriteString(";\n")
+		}
+		first = false
+		var parts []string
+		for _, x := range fs {
+			parts = append(parts, fmt.Sprintf("(%s, %s)", q(x.name), x.ft))
+		}
+		fmt.Fprintf(&b, "  (%s, [%s])", q(name), strings.Join(parts, "; "))
+	}
+	b.WriteString("].\n\n")
+
+	// decoration points
+	df := parse("decorations-types-generated.go")
+	dstructs, dorder := collectStructs(df)
+	b.WriteString("(* decoration points per kind in struct order; NodeDecs stands for Start (first) and End (last) *)\nDefinition dec_universe : list (string * list string) := [\n")
+	first = true
+	for _, name := range dorder {
+		if !strings.HasSuffix(name, "Decorations") {
+			continue
+		}
+		kind := strings.TrimSuffix(name, "Decorations")
+		var pts []string
+		hasNodeDecs := false
+		for _, fl := range dstructs[name].Fields.List {
+			if len(fl.Names) == 0 {
+				if src(fl.Type) == "NodeDecs" {
+					hasNodeDecs = true
+				} else {
+					pts = append(pts, "?embedded "+src(fl.Type))
+				}
+				continue
+			}
+			for _, n := range fl.Names {
+				if src(fl.Type) == "Decorations" {
+					pts = append(pts, n.Name)
+				} else {
+					pts = append(pts, "?"+n.Name+" "+src(fl.Type))
+				}
+			}
+		}
+		if hasNodeDecs {
+			pts = append(append([]string{"Start"}, pts...), "End")
+		}
+		if !first {
+			b.WriteString(";\n")
+		}
+		first = false
+		fmt.Fprintf(&b, "  (%s, %s)", q(kind), qlist(pts))
+	}
+	b.WriteString("].\n")
+	writeIfChanged("Universe.v", b.String())
+}
+
+// ---------------------------------------------------------------------------------
+// Walk tables: /repo/walk.go and go/ast's walk.go (reference).
+
+func goroot() string {
+	for _, p := range []string{os.Getenv("GOROOT"), "/usr/lib/go-1.23", "/usr/share/go-1.23", "/usr/local/go"} {
+		if p == "" {
+			continue
+		}
+		if rp, err := filepath.EvalSymlinks(filepath.Join(p, "src")); err == nil {
+			if _, err := os.Stat(filepath.Join(rp, "go/ast/walk.go")); err == nil {
+				return rp
+			}
+		}
+	}
+	return "/usr/share/go-1.23/src"
+}
+
+func selField(e ast.Expr, recv string) (string, bool) {
+	se, ok := e.(*ast.SelectorExpr)
+	if !ok {
+		return "", false
+	}
+	id, ok := se.X.(*ast.Ident)
+	if !ok || id.Name != recv {
+		return "", false
+	}
+	return se.Sel.Name, true
+}
+
+// one statement of a Walk case body -> wpart
+func walkStmt(s ast.Stmt, recv, where string) string {
+	unknown := func() string {
+		noteUnknown(where, src(s))
+		return "WUnknown " + q(src(s))
+	}
+	isWalkCall := func(e ast.Expr) (ast.Expr, bool) {
+		c, ok := e.(*ast.CallExpr)
+		if !ok || len(c.Args) != 2 {
+			return nil, false
+		}
+		if id, ok := c.Fun.(*ast.Ident); ok && id.Name == "Walk" && src(c.Args[0]) == "v" {
+			return c.Args[1], true
+		}
+		return nil, false
+	}
+	switch s := s.(type) {
+	case *ast.ExprStmt:
+		if arg, ok := isWalkCall(s.X); ok {
+			if f, ok := selField(arg, recv); ok {
+				return fmt.Sprintf("WOne %s false", q(f))
+			}
+		}
+		if c, ok := s.X.(*ast.CallExpr); ok && len(c.Args) == 2 && src(c.Args[0]) == "v" {
+			if id, ok := c.Fun.(*ast.Ident); ok && strings.HasPrefix(id.Name, "walk") && strings.HasSuffix(id.Name, "List") {
+				if f, ok := selField(c.Args[1], recv); ok {
+					return fmt.Sprintf("WMany %s", q(f))
+				}
+			}
+		}
+	case *ast.IfStmt:
+		// if n.F != nil { Walk(v, n.F) }
+		if s.Init == nil && s.Else == nil && len(s.Body.List) == 1 {
+			if be, ok := s.Cond.(*ast.BinaryExpr); ok && be.Op.String() == "!=" && src(be.Y) == "nil" {
+				if f, ok := selField(be.X, recv); ok {
+					if es, ok := s.Body.List[0].(*ast.ExprStmt); ok {
+						if arg, ok := isWalkCall(es.X); ok {
+							if f2, ok := selField(arg, recv); ok && f2 == f {
+								return fmt.Sprintf("WOne %s true", q(f))
+							}
+						}
+					}
+				}
+			}
+		}
+	case *ast.RangeStmt:
+		// for _, x := range n.F { Walk(v, x) }
+		if f, ok := selField(s.X, recv); ok && len(s.Body.List) == 1 && s.Value != nil {
+			if es, ok := s.Body.List[0].(*ast.ExprStmt); ok {
+				if arg, ok := isWalkCall(es.X); ok && src(arg) == src(s.Value) {
+					return fmt.Sprintf("WMany %s", q(f))
+				}
+			}
+		}
+	}
+	return unknown()
+}
+
+func walkTable(f *ast.File, funcName, where string) (map[string][]string, []string, bool) {
+	tbl := map[string][]string{}
+	var order []string
+	okShape := false
+	for _, d := range f.Decls {
+		fd, ok := d.(*ast.FuncDecl)
+		if !ok || fd.Name.Name != funcName || fd.Recv != nil || fd.Body == nil {
+			continue
+		}
+		// expected frame: if v = v.Visit(node); v == nil { return }; switch n := node.(type) {...}; v.Visit(nil)
+		var sw *ast.TypeSwitchStmt
+		frame := []string{}
+		for _, s := range fd.Body.List {
+			if ts, ok := s.(*ast.TypeSwitchStmt); ok {
+				sw = ts
+				frame = append(frame, "SWITCH")
+			} else {
+				frame = append(frame, src(s))
+			}
+		}
+		want := []string{"if v = v.Visit(node); v == nil { return }", "SWITCH", "v.Visit(nil)"}
+		if strings.Join(frame, "|") == strings.Join(want, "|") {
+			okShape = true
+		} else {
+			noteUnknown(where, "Walk frame: "+strings.Join(frame, " | "))
+		}
+		if sw == nil {
+			continue
+		}
+		recv := ""
+		if as, ok := sw.Assign.(*ast.AssignStmt); ok && len(as.Lhs) == 1 {
+			recv = src(as.Lhs[0])
+		}
+		for _, c := range sw.Body.List {
+			cc := c.(*ast.CaseClause)
+			if cc.List == nil {
+				continue // default: panic
+			}
+			var parts []string
+			for _, s := range cc.Body {
+				parts = append(parts, walkStmt(s, recv, where))
+			}
+			for _, t := range cc.List {
+				name := strings.TrimPrefix(src(t), "*")
+				tbl[name] = parts
+				order = append(order, name)
+			}
+		}
+	}
+	return tbl, order, okShape
+}
+
+func emitWalkTable(b *strings.Builder, name string, tbl map[string][]string, order []string) {
+	fmt.Fprintf(b, "Definition %s : wtable := [\n", name)
+	for i, k := range order {
+		if i > 0 {
+			b.WriteString(";\n")
+		}
+		fmt.Fprintf(b, "  (%s, [%s])", q(k), strings.Join(tbl[k], "; "))
+	}
+	b.WriteString("].\n\n")
+}
+
+func genWalk() {
+	var b strings.Builder
+	b.WriteString("(* GENERATED from /repo/walk.go and $GOROOT/src/go/ast/walk.go -- do not edit *)\n" + hdr)
+	tbl, order, ok := walkTable(parse("walk.go"), "Walk", "walk.go")
+	emitWalkTable(&b, "walk_tbl", tbl, order)
+	fmt.Fprintf(&b, "Definition walk_frame_ok : bool := %v.\n\n", ok)
+	atbl, aorder, aok := walkTable(parseAbs(filepath.Join(goroot(), "go/ast/walk.go")), "Walk", "go/ast/walk.go")
+	emitWalkTable(&b, "ast_walk_tbl", atbl, aorder)
+	fmt.Fprintf(&b, "Definition ast_walk_frame_ok : bool := %v.\n", aok)
+	// Inspect: func Inspect(node Node, f func(Node) bool) { Walk(inspector(f), node) } and inspector.Visit
+	insp := false
+	visit := false
+	for _, d := range parse("walk.go").Decls {
+		fd, ok := d.(*ast.FuncDecl)
+		if !ok || fd.Body == nil {
+			continue
+		}
+		if fd.Name.Name == "Inspect" && fd.Recv == nil && len(fd.Body.List) == 1 && src(fd.Body.List[0]) == "Walk(inspector(f), node)" {
+			insp = true
+		}
+		if fd.Name.Name == "Visit" && fd.Recv != nil && src(fd.Recv.List[0].Type) == "inspector" &&
+			src(fd.Body) == "{ if f(node) { return f } return nil }" {
+			visit = true
+		}
+	}
+	if !insp || !visit {
+		noteUnknown("walk.go", "Inspect / inspector.Visit have an unrecognised shape")
+	}
+	fmt.Fprintf(&b, "\nDefinition inspect_shape_ok : bool := %v.\n", insp && visit)
+	writeIfChanged("WalkTbl.v", b.String())
+}
